@@ -87,6 +87,7 @@ const BOUND_HIST: &str = "bounded: histories up to the depth reported per alphab
 const BOUND_INPUT: &str = "bounded: inputs within the reported number of deviations of the reference-signed seed shapes";
 
 fn run_property(prop: &str, tier: Tier, rep: &mut Report) -> Plan {
+    hist::DEEP.store(prop == "C05" || prop == "C08", std::sync::atomic::Ordering::Relaxed);
     let hist_rule = "explicit-state BFS over call histories on the real code in lock-step with the R-map model; a case is non-trivial/distinct when it is a distinct canonical state (owner, seq, pairs, signature length)";
     let input_rule = "exhaustive enumeration of every operator at every position (d deviations) around reference-signed seeds, decoded by the real decoder under every key type, judged by R-spec; distinct = distinct input bytes";
     let b = CFG == "B";
